@@ -787,6 +787,10 @@ class Engine:
             for b in (lo, hi):
                 if b is not None and pytype_name(b) not in ("int", "bool"):
                     return [(Raise(Exc("TypeError", "slice indices must be integers")), st)]
+            pre = smt.literal_prefix(to_term(c)) if isinstance(c, Sym) else None
+            if pre is not None and isinstance(hi, int) and not isinstance(hi, bool) and (lo is None or (isinstance(lo, int) and not isinstance(lo, bool))) \
+                    and 0 <= (lo or 0) and 0 <= hi <= len(pre):
+                return [(pre[(lo or 0):hi], st)]  # the slice lies inside the literal prefix of the symbolic string
             lo_t = None if lo is None else self._num(lo)
             hi_t = None if hi is None else self._num(hi)
             return [(Sym(smt.slice_term(to_term(c), lo_t, hi_t), "str"), st)]
